@@ -201,7 +201,7 @@ def run_routes(t):
         for r in range(rows):
             for dd in range(d):
                 sc.uf_eq('update(durations) == constructor(durations) c[%d,%d]' % (r, dd), 'cS4.%d.%d' % (r, dd), 'cS1.%d.%d' % (r, dd))
-                sc.uf_eq('constructor(time points) == constructor(durations := differences) c[%d,%d]' % (r, dd), 'cS2.%d.%d' % (r, dd), 'cS3.%d.%d' % (r, dd))
+                sc.uf_eq('constructor(time points) == constructor(durations := differences) c[%d,%d]' % (r, dd), 'cS2.%d.%d' % (r, dd), 'cS3.%d.%d' % (r, dd), real_fallback=True)
                 sc.uf_eq('update(time points) == constructor(time points) c[%d,%d]' % (r, dd), 'cS5.%d.%d' % (r, dd), 'cS2.%d.%d' % (r, dd))
                 sc.uf_eq('defaulted boundary argument == zero boundary state c[%d,%d]' % (r, dd), 'cS6.%d.%d' % (r, dd), 'cS7.%d.%d' % (r, dd))
         E = sc.enc
